@@ -165,6 +165,82 @@ def alias_of(M: Model, e: ast.expr) -> ast.expr | None:
                 return ast.Name(id=tgt.elts[0].id, ctx=ast.Load())
     if isinstance(e, ast.Call) and isinstance(e.func, ast.Name) and e.func.id == "str" and len(e.args) == 1:
         return alias_of(M, e.args[0])
+    # item.alias where item is a per-alias object
+    if isinstance(e, ast.Attribute) and isinstance(e.value, ast.Name):
+        info = obj_var(M, e.value.id)
+        if info is not None and e.attr == info["alias"]:
+            return ast.Attribute(value=ast.Name(id=e.value.id, ctx=ast.Load()), attr=info["module"], ctx=ast.Load())
+    # pair[1] where pair is an (aliased module, alias) item
+    if isinstance(e, ast.Subscript) and isinstance(e.slice, ast.Constant) and e.slice.value == 1 and isinstance(e.value, ast.Name) and pair_var(M, e.value.id) is not None:
+        return ast.Subscript(value=ast.Name(id=e.value.id, ctx=ast.Load()), slice=ast.Constant(value=0), ctx=ast.Load())
+    return None
+
+
+def object_items(M: Model, e: ast.expr) -> dict | None:
+    """resolved `e` = one small object per aliased module: `[Item(m, a) for m, a in aliases.items()]` / `(Item(m, aliases[m]) for m in aliases)`
+    ->  {'module': field holding the module name, 'alias': field holding the alias, 'elt': the constructor call}"""
+    while isinstance(e, ast.Call) and isinstance(e.func, ast.Name) and e.func.id in ("list", "tuple", "sorted", "reversed", "iter") and len(e.args) == 1:
+        e = e.args[0]
+    if not (isinstance(e, (ast.ListComp, ast.GeneratorExp)) and len(e.generators) == 1 and not e.generators[0].ifs and isinstance(e.elt, ast.Call)):
+        return None
+    g = e.generators[0]
+    kind = M.keys_of_A(g.iter)
+    if kind == "items" and isinstance(g.target, (ast.Tuple, ast.List)) and len(g.target.elts) == 2 and all(isinstance(x, ast.Name) for x in g.target.elts):
+        m, a = g.target.elts[0].id, g.target.elts[1].id
+    elif kind == "keys" and isinstance(g.target, ast.Name):
+        m, a = g.target.id, None
+    else:
+        return None
+    from .common import types_of
+
+    ctx, orig = getattr(e.elt, "_src", None) or getattr(e.elt, "_orig", None) or (M.V, e.elt)
+    try:
+        ci = types_of(M.repo).ctor_class(ctx, orig) if isinstance(orig, ast.Call) else None
+    except Exception:  # noqa: BLE001
+        ci = None
+    if ci is None:
+        return None
+    fields = list(dict.fromkeys([f for c in M.repo.mro(ci) for f in c.ann_attrs] + [n.attr for meth in ci.methods.values() if meth.name == "__init__" for n in ast.walk(meth.node) if isinstance(n, ast.Attribute) and isinstance(n.ctx, ast.Store)]))
+    out = {"elt": e.elt, "module": None, "alias": None}
+    for f in fields:
+        v = M._field_of_new_object(e.elt, f)
+        if v is None:
+            continue
+        if _is_name(v, m):
+            out["module"] = f
+        elif (a is not None and _is_name(v, a)) or (isinstance(v, ast.Subscript) and M.is_A(v.value) and _is_name(v.slice, m)):
+            out["alias"] = f
+    return out if out["module"] and out["alias"] else None
+
+
+def obj_var(M: Model, name: str) -> dict | None:
+    """`name` holds one per-alias object (see object_items): a loop variable over them or the result of next()/max()/min() over them"""
+    b = M.loop_binding(name)
+    if b is not None and b.node is getattr(b.stmt, "target", None):
+        return object_items(M, M.resolve(b.value))
+    v = M.single_value(name)
+    if isinstance(v, ast.Call) and isinstance(v.func, ast.Name) and v.func.id in ("next", "max", "min") and v.args:
+        comp = _comp_of(M, v.args[0])
+        if comp is not None:
+            return object_items(M, comp[1])
+    return None
+
+
+def pair_var(M: Model, name: str):
+    """`name` holds one (aliased module, alias) item of the alias mapping: the variable of a loop over aliases.items() (possibly
+    sorted), or the result of next()/max()/min() over such items.  -> ('loop', binding) | ('sel', call) | None"""
+    b = M.loop_binding(name)
+    if b is not None and b.node is getattr(b.stmt, "target", None):
+        d, _o = domain_order(M, M.resolve(b.value), "")
+        if d == "items":
+            return ("loop", b)
+    v = M.single_value(name)
+    if isinstance(v, ast.Call) and isinstance(v.func, ast.Name) and v.func.id in ("next", "max", "min") and v.args:
+        comp = _comp_of(M, v.args[0])
+        if comp is not None:
+            d, _o = domain_order(M, comp[1], "")
+            if d == "items":
+                return ("sel", v)
     return None
 
 
@@ -317,6 +393,21 @@ def _comp_of(M: Model, e: ast.expr):
 
 def find_selection(M: Model, m_expr: ast.expr, ev: Event) -> Selection | str:
     sub = M.helper_subst()
+    if isinstance(m_expr, ast.Subscript) and isinstance(m_expr.slice, ast.Constant) and m_expr.slice.value == 0 and isinstance(m_expr.value, ast.Name) and pair_var(M, m_expr.value.id) is not None:
+        # pair[0] of an (aliased module, alias) item: the selection is the selection of the pair
+        got = find_selection(M, ast.Name(id=m_expr.value.id, ctx=ast.Load()), ev)
+        if isinstance(got, str):
+            return got
+        got.cand = f"{got.cand}[0]"
+        return got
+    if isinstance(m_expr, ast.Attribute) and isinstance(m_expr.value, ast.Name):
+        info = obj_var(M, m_expr.value.id)
+        if info is not None and m_expr.attr == info["module"]:
+            got = find_selection(M, ast.Name(id=m_expr.value.id, ctx=ast.Load()), ev)
+            if isinstance(got, str):
+                return got
+            got.cand = f"{got.cand}.{info['module']}"
+            return got
     if not isinstance(m_expr, ast.Name):
         # <filtered candidates>[0] / [-1]
         if isinstance(m_expr, ast.Subscript) and isinstance(m_expr.slice, (ast.Constant, ast.UnaryOp)):
@@ -466,6 +557,8 @@ def _spec_key(M: Model, key: ast.expr | None, items: bool) -> str | None:
         p = key.args.args[0].arg
 
         def is_name_expr(e: ast.AST) -> bool:
+            if isinstance(items, tuple):
+                return isinstance(e, ast.Attribute) and _is_name(e.value, p) and e.attr == items[1]
             if items:
                 return isinstance(e, ast.Subscript) and _is_name(e.value, p) and isinstance(e.slice, ast.Constant) and e.slice.value == 0
             return _is_name(e, p)
@@ -560,6 +653,9 @@ def domain_order(M: Model, e: ast.expr, n: str, depth: int = 0) -> tuple[str | N
         return domain_order(M, e.args[0], n, depth + 1)
     if isinstance(e, ast.Call) and isinstance(e.func, ast.Name) and e.func.id == "sorted" and len(e.args) == 1:
         d, _o = domain_order(M, e.args[0], n, depth + 1)
+        if d == "objs":
+            info = object_items(M, e.args[0])
+            return d, (_sorted_order(M, e.keywords, ("attr", info["module"])) if info and info.get("module") else None)
         if d in ("keys", "items"):
             return d, _sorted_order(M, e.keywords, d == "items")
         if d in ("lineage", "parents"):
@@ -578,6 +674,8 @@ def domain_order(M: Model, e: ast.expr, n: str, depth: int = 0) -> tuple[str | N
     k = M.keys_of_A(e)
     if k is not None and not (isinstance(e, ast.Call) and isinstance(e.func, ast.Name) and e.func.id in ("sorted", "reversed")):
         return k, "mapping"
+    if object_items(M, e) is not None:
+        return "objs", "mapping"
     if _parents_call(e, n):
         return "parents", "far"  # get_parent_modules lists the root first
     # [n] + <parents>   /   [n, *<parents>]
@@ -1186,7 +1284,7 @@ def _judge_selection(C, ev: Event, sel: Selection, label_names: set[str], has_se
                 out.append(("ok", r1, what_t, "candidates are the module itself and its ancestors (get_parent_modules): whole dotted components by construction", sel.where))
         else:
             out.append(("unsure", r1, what_t, f"the condition `{_show(P)}` is not equivalent to 'the candidate has an alias'", sel.where))
-    elif domain in ("keys", "items"):
+    elif domain in ("keys", "items", "objs"):
         # a raw prefix test is boundary-safe together with a test of what follows the prefix
         r_self, r_proper, r_both, r_notself = by("raw:self"), by("raw:proper"), by("raw:both"), by("raw:not-self")
         comp_self = f_or([*r_self, *r_both, *[f_not(x) for x in r_notself]])
@@ -1237,7 +1335,7 @@ def _judge_selection(C, ev: Event, sel: Selection, label_names: set[str], has_se
         disc = "first"  # a structural 'already labelled' test: only the first matching candidate stores
     if disc == "every":
         disc = "last"
-    if domain in ("keys", "items"):
+    if domain in ("keys", "items", "objs"):
         good = (disc == "first" and order == "desc") or (disc == "last" and order == "asc") or disc == "longest"
         wrong = (disc == "first" and order in ("asc", "mapping", "foreign")) or (disc == "last" and order in ("desc", "mapping", "foreign")) or disc == "shortest"
         how = {"first": "the first match is used", "last": "later matches overwrite earlier ones", "longest": "the longest match is selected", "shortest": "the shortest match is selected"}[disc]
